@@ -687,50 +687,54 @@ func TestC09(t *testing.T) {
 	run.Assume("the host may legitimately merge when ITS inbound message was complete even if its reply is cut", "version oracle used one-directionally: incompatible => nothing changes")
 	cfgs := []c09Cfg{{-1, false, ""}, {-1, true, "c9"}, {1, false, ""}, {1, true, "c9"}, {0, false, "c9"}, {0, true, ""}}
 	k := 0
-	for ci, cfg := range cfgs {
-		for _, variant := range []string{"plain", "alive-veto", "joiner-knows-newer-dead", "cidr"} {
+	for rep := 0; rep < run.Pick(1, 10); rep++ {
+		for ci, cfg := range cfgs {
+			for _, variant := range []string{"plain", "alive-veto", "joiner-knows-newer-dead", "cidr"} {
+				k++
+				id := fmt.Sprintf("mutual/%d/%s/rep%d", ci, variant, rep)
+				if !run.Mine(k) || !run.Want(id) {
+					continue
+				}
+				run.Journal(id, "")
+				rng := run.RNG(id)
+				var res []*c01Result
+				err := Bubble(t, func() { res = runC09Mutual(run, run.Seed()+int64(k)*31, cfg, variant, rng) })
+				if err != nil {
+					res = append(res, &c01Result{"C09/bubble", err.Error()})
+				}
+				for _, r := range res {
+					run.Violation(id, r.Key, r.What, cfg)
+				}
+			}
 			k++
-			id := fmt.Sprintf("mutual/%d/%s", ci, variant)
-			if !run.Mine(k) || !run.Want(id) {
-				continue
+			id := fmt.Sprintf("cuts/%d/rep%d", ci, rep)
+			if run.Mine(k) && run.Want(id) {
+				run.Journal(id, "")
+				rng := run.RNG(id)
+				var res []*c01Result
+				err := Bubble(t, func() {
+					res = runC09Cuts(run, run.Seed()*7+int64(ci)*100000+int64(rep)*1000003, cfg, rng, run.Thorough())
+				})
+				if err != nil {
+					res = append(res, &c01Result{"C09/bubble", err.Error()})
+				}
+				for _, r := range res {
+					run.Violation(id, r.Key, r.What, cfg)
+				}
 			}
-			run.Journal(id, "")
-			rng := run.RNG(id)
-			var res []*c01Result
-			err := Bubble(t, func() { res = runC09Mutual(run, run.Seed()+int64(k), cfg, variant, rng) })
-			if err != nil {
-				res = append(res, &c01Result{"C09/bubble", err.Error()})
-			}
-			for _, r := range res {
-				run.Violation(id, r.Key, r.What, cfg)
-			}
-		}
-		k++
-		id := fmt.Sprintf("cuts/%d", ci)
-		if run.Mine(k) && run.Want(id) {
-			run.Journal(id, "")
-			rng := run.RNG(id)
-			var res []*c01Result
-			err := Bubble(t, func() { res = runC09Cuts(run, run.Seed()*7+int64(ci)*100000, cfg, rng, run.Thorough()) })
-			if err != nil {
-				res = append(res, &c01Result{"C09/bubble", err.Error()})
-			}
-			for _, r := range res {
-				run.Violation(id, r.Key, r.What, cfg)
-			}
-		}
-		k++
-		id = fmt.Sprintf("reject/%d", ci)
-		if run.Mine(k) && run.Want(id) {
-			run.Journal(id, "")
-			rng := run.RNG(id)
-			var res []*c01Result
-			err := Bubble(t, func() { res = runC09Reject(run, run.Seed()*11+int64(ci), cfg, rng, run.Pick(150, 3000)) })
-			if err != nil {
-				res = append(res, &c01Result{"C09/bubble", err.Error()})
-			}
-			for _, r := range res {
-				run.Violation(id, r.Key, r.What, cfg)
+			k++
+			id = fmt.Sprintf("reject/%d/rep%d", ci, rep)
+			if run.Mine(k) && run.Want(id) {
+				run.Journal(id, "")
+				rng := run.RNG(id)
+				var res []*c01Result
+				err := Bubble(t, func() { res = runC09Reject(run, run.Seed()*11+int64(ci)+int64(rep)*977, cfg, rng, run.Pick(150, 3000)) })
+				if err != nil {
+					res = append(res, &c01Result{"C09/bubble", err.Error()})
+				}
+				for _, r := range res {
+					run.Violation(id, r.Key, r.What, cfg)
+				}
 			}
 		}
 	}
